@@ -175,8 +175,8 @@ def eager_action_rules(ctx: Ctx, rule: str) -> None:
                 exc = node.ast.exc
                 d = dotted(exc.func) if isinstance(exc, ast.Call) else (dotted(exc) if exc is not None else None)
                 return "raise _NoAction" if d and d.split(".")[-1] == "_NoAction" else f"raise {d}"
-            if node.kind == "return":
-                return "return"
+            if node.kind == "return" and node.func is f:
+                return "return"  # the action itself returns (a helper's return just hands a value back)
             return None
 
         trs = flow.traces(g, symbol, kinds=flow.NORMAL_KINDS + ("raise",), loop_bound=ctx.loop_bound)
